@@ -8,11 +8,6 @@ import XzVerif.Model.Lzma
 namespace XzVerif.Lzma
 open XzVerif.RangeDec XzVerif.LzDict
 
-/-- final state of a run, whether it ended normally or by an exit -/
-def resSt {ε σ α : Type} : EStateM.Result ε σ α → σ
-  | .ok _ s => s
-  | .error _ s => s
-
 /-- What the symbol decoder never touches, and how the input cursor moves. -/
 structure Fr (s s' : St) : Prop where
   inp : s'.inp = s.inp
@@ -45,21 +40,27 @@ abbrev Keeps {α : Type} (x : M α) : Prop := Sat x (fun _ => True)
 theorem Sat.weaken {α} {x : M α} {P Q : α → Prop} (h : Sat x P) (hpq : ∀ a, P a → Q a) : Sat x Q :=
   fun s => ⟨(h s).1, fun a s' e => hpq a ((h s).2.1 a s' e), (h s).2.2⟩
 
-theorem Sat.pure {α} (a : α) {Q : α → Prop} (h : Q a) : Sat (pure a : M α) Q :=
-  fun s => ⟨Fr.refl s, fun b s' e => by
+theorem Sat.pure {α} (a : α) {Q : α → Prop} (h : Q a) : Sat (pure a : M α) Q := by
+  intro s
+  refine ⟨Fr.refl s, ?_, ?_⟩
+  · intro b s' e
     have : (EStateM.Result.ok a s : EStateM.Result Exit St α) = .ok b s' := e
     injection this with h1 _
-    exact h1 ▸ h, fun s' e => by
+    exact h1 ▸ h
+  · intro s' e
     have : (EStateM.Result.ok a s : EStateM.Result Exit St α) = .error .fuel s' := e
-    cases this⟩
+    cases this
 
-theorem Sat.throw {α} (e : Exit) (he : e ≠ .fuel) {Q : α → Prop} : Sat (throw e : M α) Q :=
-  fun s => ⟨Fr.refl s, fun b s' h => by
+theorem Sat.throw {α} (e : Exit) (he : e ≠ .fuel) {Q : α → Prop} : Sat (throw e : M α) Q := by
+  intro s
+  refine ⟨Fr.refl s, ?_, ?_⟩
+  · intro b s' h
     have : (EStateM.Result.error e s : EStateM.Result Exit St α) = .ok b s' := h
-    cases this, fun s' h => by
+    cases this
+  · intro s' h
     have : (EStateM.Result.error e s : EStateM.Result Exit St α) = .error .fuel s' := h
     injection this with h1 _
-    exact he h1⟩
+    exact he h1
 
 theorem Sat.bind {α β} {x : M α} {f : α → M β} {P : α → Prop} {Q : β → Prop}
     (hx : Sat x P) (hf : ∀ a, P a → Sat (f a) Q) : Sat (x >>= f) Q := by
@@ -76,16 +77,25 @@ theorem Sat.bind {α β} {x : M α} {f : α → M β} {P : α → Prop} {Q : β 
     exact ⟨h1.1.trans h2.1, fun b s' e => h2.2.1 b s' e, h2.2.2⟩
   | error e s1 =>
     rw [hxs] at h1
-    exact ⟨h1.1, fun b s' e => by cases e, fun s' e => h1.2.2 s' e⟩
+    refine ⟨h1.1, ?_, ?_⟩
+    · intro b s' e'; cases e'
+    · intro s' e'; exact h1.2.2 s' (by simpa using e')
 
 /-- a pure read of the state -/
 theorem Sat.read {α} (g : St → α) {Q : α → Prop} (h : ∀ s, Q (g s)) :
-    Sat (fun s => EStateM.Result.ok (g s) s : M α) Q :=
-  fun s => ⟨Fr.refl s, fun a s' e => by injection e with h1 _; exact h1 ▸ h s, fun s' e => by cases e⟩
+    Sat (fun s => EStateM.Result.ok (g s) s : M α) Q := by
+  intro s
+  refine ⟨Fr.refl s, ?_, ?_⟩
+  · intro a s' e; injection e with h1 _; exact h1 ▸ h s
+  · intro s' e; cases e
 
 /-- a state update that respects the frame -/
-theorem Sat.modify (f : St → St) (h : ∀ s, Fr s (f s)) : Sat (modify f : M PUnit) (fun _ => True) :=
-  fun s => ⟨h s, fun _ _ _ => trivial, fun s' e => by cases e⟩
+theorem Sat.modify (f : St → St) (h : ∀ s, Fr s (f s)) : Sat (modify f : M PUnit) (fun _ => True) := by
+  intro s
+  refine ⟨h s, fun _ _ _ => trivial, ?_⟩
+  intro s' e
+  have : (EStateM.Result.ok PUnit.unit (f s) : EStateM.Result Exit St PUnit) = .error .fuel s' := e
+  cases this
 
 theorem Sat.ite {α} {c : Prop} [Decidable c] {x y : M α} {Q : α → Prop} (hx : Sat x Q) (hy : Sat y Q) :
     Sat (if c then x else y) Q := by
@@ -123,22 +133,26 @@ theorem bitCore_bit_le (rc : Rc) (p : Nat) : (bitCore rc p).1 ≤ 1 := by
 theorem sat_rcBit (idx : Nat) : Sat (rcBit idx) (fun b => b ≤ 1) := by
   intro s
   have h := (sat_rcNormalize s).1
+  have hnf := (sat_rcNormalize s).2.2
   unfold rcBit
   cases hn : rcNormalize s with
   | error e s1 =>
     rw [hn] at h
-    refine ⟨h, fun _ _ e => by cases e, fun s' e' => ?_⟩
-    injection e' with h1 h2
-    subst h1; subst h2
-    exact (sat_rcNormalize s).2.2 _ hn
+    refine ⟨h, ?_, ?_⟩
+    · intro _ _ e'; cases e'
+    · intro s' e'
+      injection e' with h1 h2
+      subst h1; subst h2
+      exact hnf _ hn
   | ok a s1 =>
     rw [hn] at h
-    refine ⟨h.trans ⟨rfl, Nat.le_refl _, id, rfl, rfl, rfl, rfl, rfl, rfl, ⟨rfl, rfl, rfl⟩⟩, ?_, fun s' e => by cases e⟩
-    intro b s' e
-    simp only [] at e
-    injection e with h1 _
-    rw [← h1]
-    exact bitCore_bit_le _ _
+    refine ⟨h.trans ⟨rfl, Nat.le_refl _, id, rfl, rfl, rfl, rfl, rfl, rfl, ⟨rfl, rfl, rfl⟩⟩, ?_, ?_⟩
+    · intro b s' e
+      simp only [] at e
+      injection e with h1 _
+      rw [← h1]
+      exact bitCore_bit_le _ _
+    · intro s' e; cases e
 
 theorem fr_directStep (s : St) :
     Fr s (let r := directCore (Rc.mk s.range s.code); { s with range := r.2.range, code := r.2.code }) := by
@@ -158,8 +172,8 @@ theorem sat_directStep : Sat (fun s : St =>
       let r := directCore (Rc.mk s.range s.code)
       EStateM.Result.ok r.1 { s with range := r.2.range, code := r.2.code } : M Nat) (fun _ => True) := by
   intro s
-  refine ⟨?_, fun _ _ _ => trivial, fun s' e => by cases e⟩
-  exact fr_directStep s
+  refine ⟨fr_directStep s, fun _ _ _ => trivial, ?_⟩
+  intro s' e; cases e
 
 theorem sat_rcDirect (n : Nat) : ∀ dest, Sat (rcDirect n dest) (fun _ => True) := by
   induction n with
